@@ -330,78 +330,69 @@ def fn_to_sympy(
 
 
 def _handle_fn_body(body: list[ast.stmt], ctx: Context) -> sympy.Expr | None:
-    pieces = []
-    remaining_body = list(body)
+    """Translate a list of statements into the expression of the value they return.
 
-    while remaining_body:
-        node = remaining_body.pop(0)
-
+    An ``if`` statement is translated together with the statements following it:
+    every branch continues with those statements and works on its own copy of the
+    symbol table. Assignments made in one branch are therefore not visible in the
+    other branches and code after the ``if`` statement is kept.
+    """
+    for idx, node in enumerate(body):
         if isinstance(node, ast.If):
+            rest = body[idx + 1 :]
             condition = _handle_expr(node.test, ctx)
-            if_expr = _handle_fn_body(node.body, ctx)
-            pieces.append((if_expr, condition))
-
-            # If there's an else clause
-            if node.orelse:
-                # Check if it's an elif (an If node in orelse)
-                if len(node.orelse) == 1 and isinstance(node.orelse[0], ast.If):
-                    # Push the elif back to the beginning of remaining_body to process next
-                    remaining_body.insert(0, node.orelse[0])
-                else:
-                    # It's a regular else
-                    else_expr = _handle_fn_body(node.orelse, ctx)  # FIXME: copy here
-                    pieces.append((else_expr, True))
-                    break  # We're done with this chain
-
-            elif not remaining_body and any(
-                isinstance(n, ast.Return) for n in body[body.index(node) + 1 :]
-            ):
+            pieces = [
+                (
+                    _handle_fn_body(
+                        [*node.body, *rest],
+                        ctx.updated(symbols=dict(ctx.symbols)),
+                    ),
+                    condition,
+                )
+            ]
+            # No else and nothing after the if: no value if the condition is false
+            if else_body := [*node.orelse, *rest]:
                 else_expr = _handle_fn_body(
-                    body[body.index(node) + 1 :], ctx
-                )  # FIXME: copy here
-                pieces.append((else_expr, True))
+                    else_body,
+                    ctx.updated(symbols=dict(ctx.symbols)),
+                )
+                if isinstance(else_expr, sympy.Piecewise):
+                    # keep elif chains and consecutive ifs flat
+                    pieces.extend(else_expr.args)
+                else:
+                    pieces.append((else_expr, True))
+            if condition is None or any(expr is None for expr, _ in pieces):
+                return None
+            return sympy.Piecewise(*pieces)
 
-        elif isinstance(node, ast.Return):
+        if isinstance(node, ast.Return):
             if (value := node.value) is None:
                 msg = "Return value cannot be None"
                 raise ValueError(msg)
+            return _handle_expr(value, ctx)
 
-            expr = _handle_expr(value, ctx)
-            if not pieces:
-                return expr
-            pieces.append((expr, True))
-            break
-
-        elif isinstance(node, ast.Assign):
-            # Handle tuple assignments like c, d = a, b
-            if isinstance(node.targets[0], ast.Tuple):
-                # Handle tuple unpacking
-                target_elements = node.targets[0].elts
-
-                if isinstance(node.value, ast.Tuple):
+        if isinstance(node, ast.Assign):
+            # Evaluate the right hand side(s) first, then bind: a, b = b, a
+            new_symbols: dict[str, sympy.Symbol | sympy.Expr] = {}
+            for target in node.targets:
+                if isinstance(target, ast.Name):
+                    targets: list[ast.expr] = [target]
+                    values: list[ast.expr] = [node.value]
+                elif isinstance(target, ast.Tuple) and isinstance(node.value, ast.Tuple):
                     # Direct unpacking like c, d = a, b
-                    value_elements = node.value.elts
-                    for target, value_expr in zip(
-                        target_elements, value_elements, strict=True
-                    ):
-                        if isinstance(target, ast.Name):
-                            expr = _handle_expr(value_expr, ctx)
-                            if expr is None:
-                                return None
-                            ctx.symbols[target.id] = expr
+                    targets = target.elts
+                    values = node.value.elts
                 else:
-                    # Handle potential iterable unpacking
-                    value = _handle_expr(node.value, ctx)
-            else:
-                # Regular single assignment
-                if not isinstance(target := node.targets[0], ast.Name):
-                    msg = "Only single variable assignments are supported"
+                    msg = "Only assignments to variables or tuples of them are supported"
                     raise TypeError(msg)
-                target_name = target.id
-                value = _handle_expr(node.value, ctx)
-                if value is None:
-                    return None
-                ctx.symbols[target_name] = value
+                for sub_target, value_expr in zip(targets, values, strict=True):
+                    if not isinstance(sub_target, ast.Name):
+                        msg = "Only assignments to variables are supported"
+                        raise TypeError(msg)
+                    if (expr := _handle_expr(value_expr, ctx)) is None:
+                        return None
+                    new_symbols[sub_target.id] = expr
+            ctx.symbols.update(new_symbols)
 
         elif isinstance(node, ast.Import):
             for alias in node.names:
@@ -423,12 +414,16 @@ def _handle_fn_body(body: list[ast.stmt], ctx: Context) -> sympy.Expr | None:
                     ctx.modules[name] = el
                 else:
                     _LOGGER.debug("Skipping import %s", node)
-        else:
+
+        elif isinstance(node, (ast.Pass, ast.Assert)) or (
+            isinstance(node, ast.Expr) and isinstance(node.value, ast.Constant)
+        ):
+            # No influence on the returned value
             _LOGGER.debug("Skipping node of type %s", type(node))
 
-    # If we have pieces to combine into a Piecewise
-    if pieces:
-        return sympy.Piecewise(*pieces)
+        else:
+            msg = f"Statement type {type(node).__name__} not implemented"
+            raise NotImplementedError(msg)
 
     # If no return was found but we have assignments, return the last assigned variable
     for node in reversed(body):
